@@ -210,6 +210,52 @@ class Check:
             lock.close()
         return r.returncode, r.stdout + r.stderr
 
+    def _regenerate_dependencies(self, targets):
+        """every Generated/Cxx*.lean in the import closure of this check's modules and drivers is regenerated from the
+        package the interpreter imports NOW (not only this property's own file): a generated file left behind by a run
+        of another property against a different tree can then never leak into this check."""
+        import importlib
+        seen, todo, gens = set(), [], set()
+        exe_roots = {}
+        try:
+            txt = (LEAN / 'lakefile.toml').read_text()
+            for m in re.finditer(r'name\s*=\s*"(drv_\w+)"\s*\nroot\s*=\s*"([\w.]+)"', txt):
+                exe_roots[m.group(1)] = m.group(2)
+        except OSError:
+            pass
+        for t in targets:
+            todo.append(exe_roots.get(t, t))
+        while todo:
+            mod = todo.pop()
+            if mod in seen:
+                continue
+            seen.add(mod)
+            f = LEAN / (mod.replace('.', '/') + '.lean')
+            if not f.exists():
+                continue
+            for line in f.read_text().splitlines():
+                mm = re.match(r'\s*import\s+((?:NoteSeqVerif|Driver)\.[\w.]+)', line)
+                if mm:
+                    dep = mm.group(1)
+                    todo.append(dep)
+                    g = re.match(r'NoteSeqVerif\.Generated\.(C\d\d)', dep)
+                    if g:
+                        gens.add(g.group(1))
+        done = []
+        for pid in sorted(gens - {self.pid}):
+            try:
+                mod = importlib.import_module('harness.' + pid.lower())
+                if hasattr(mod, 'generate'):
+                    sub = Check.__new__(Check)
+                    sub.__dict__.update(pid=pid, tier=self.tier, seed=self.seed, translit={}, notes={}, thorough=self.thorough,
+                                        changed_sources=self.changed_sources)
+                    mod.generate(sub)
+                    done.append(pid)
+            except Exception as e:  # pylint: disable=broad-except
+                self.notes['regenerate_dependency:' + pid] = 'failed: %s: %s' % (type(e).__name__, str(e)[:200])
+        if done:
+            self.notes['regenerated_dependencies'] = ' '.join(done)
+
     def prove(self, modules, theorems, exes=(), extra_trusted=()):
         """Build the property's proof modules and drivers, audit axioms of every registered
         theorem, scan sources for forbidden constructs.  Records obligations/discharged and
@@ -218,6 +264,7 @@ class Check:
         self.checker_cmds.append('cd lean && lake build %s && lake env lean <audit: #print axioms of %d theorems>'
                                  % (' '.join(list(modules) + list(exes)), len(theorems)))
         targets = list(modules) + list(exes)
+        self._regenerate_dependencies(targets)
         rc, log = self._lake(['build'] + targets)
         self.notes.setdefault('build_log_tail', log[-1500:] if rc else 'ok')
         built = set(modules)
